@@ -479,6 +479,35 @@ CaseResult run_md(const RunCtx &ctx, TapeReader &t, unsigned size_hint) {
             if (!expect.empty() && max_run_out >= 65) nt = true, res.label("nt_box_with_skip");
             if (expect.empty()) res.label("box_empty");
         }
+        // two cursors alive at once: the first two boxes are enumerated again, one step of each in turn (an iterator carries its own
+        // box and position; what another range() call on the same index does must not matter to it)
+        if (res.ok && boxes.size() >= 2) {
+            auto inside = [&](const Pt4 &p, size_t b) {
+                for (size_t d = 0; d < D; ++d)
+                    if (p[d] < boxes[b].first[d] || p[d] > boxes[b].second[d]) return false;
+                return true;
+            };
+            std::vector<Pt4> want[2], got[2];
+            for (auto &sp: sorted)
+                for (size_t b = 0; b < 2; ++b)
+                    if (inside(sp.second, b)) want[b].push_back(sp.second);
+            try {
+                auto it0 = idx->range(to_tuple<D, T>(boxes[0].first), to_tuple<D, T>(boxes[0].second));
+                auto it1 = idx->range(to_tuple<D, T>(boxes[1].first), to_tuple<D, T>(boxes[1].second));
+                const size_t limit = 2 * pts.size() + 4;
+                for (size_t step = 0; step < limit && (it0 != idx->end() || it1 != idx->end()); ++step) {
+                    if (it0 != idx->end()) got[0].push_back(from_tuple<D>(*it0)), ++it0;
+                    if (it1 != idx->end()) got[1].push_back(from_tuple<D>(*it1)), ++it1;
+                }
+            } catch (const std::exception &e) {
+                res.fail(std::string("interleaved range iteration threw: ") + e.what());
+            }
+            for (size_t b = 0; b < 2 && res.ok && !mem; ++b)
+                if (got[b] != want[b])
+                    res.fail("two range iterators advanced in turn: box " + pt_str<D>(boxes[b].first) + ".." + pt_str<D>(boxes[b].second) + " yielded " +
+                             std::to_string(got[b].size()) + " points, expected " + std::to_string(want[b].size()));
+            res.label("two_live_range_iterators");
+        }
     }
     if (c14 || mem) {
         // membership multiset
